@@ -6,6 +6,8 @@ import io, itertools, os, sys, tempfile, types, unittest
 from harness.core import Prop, some
 
 KINDS = ['plain', 'custom', 'csort', 'cfilter']
+#: 'fixture' = the real testtools.testsuite.FixtureSuite (a TestSuite subclass with sort_tests and without filter_by_ids): for the model it is
+#: a `csort` suite - the token only selects the class the harness builds; shapes are reported with the model's name `csort`
 
 
 def _classes():
@@ -21,7 +23,19 @@ def _classes():
     class CustomFilter(unittest.TestSuite):
         def filter_by_ids(self, ids):
             return CustomFilter([filter_by_ids(t, ids) for t in self])
-    return {'plain': unittest.TestSuite, 'custom': Custom, 'csort': CustomSort, 'cfilter': CustomFilter}
+    from testtools.testsuite import FixtureSuite
+
+    class TrivialFixture:
+        def setUp(self):
+            pass
+
+        def cleanUp(self):
+            pass
+
+    class Fixture(FixtureSuite):        # (only to supply the fixture argument; nothing is overridden)
+        def __init__(self, tests=()):
+            FixtureSuite.__init__(self, TrivialFixture(), tests)
+    return {'plain': unittest.TestSuite, 'custom': Custom, 'csort': CustomSort, 'cfilter': CustomFilter, 'fixture': Fixture}
 
 
 def tid(n):
@@ -30,20 +44,27 @@ def tid(n):
 
 class C19(Prop):
     id = 'C19'
-    budgets = {'quick': 3000, 'thorough': 12000}
-    rule = ('random suite trees (depth 0-4, fan-out 0-4) over plain TestSuite / subclass / subclass with sort_tests / '
-            'subclass with filter_by_ids / PlaceHolder cases, ids unique or duplicated, id subsets incl. absent ids; '
+    budgets = {'quick': 3000, 'thorough': 5000}
+    rule = ('random suite trees (depth 0-4, fan-out 0-4) over plain TestSuite / subclass / subclass with sort_tests (the harness\'s own and the real '
+            'testtools FixtureSuite with a trivial fixture) / subclass with filter_by_ids / PlaceHolder cases, ids unique or duplicated, id subsets incl. absent ids; '
             'thorough adds every tree with <= 4 nodes x 3 id patterns x 4 id subsets and every tree with 5 nodes x 1 id pattern x 2 id subsets. Besides the modelled observations every case '
             'checks two independence requirements on the real objects (a dependence is reported as a trace outside the model\'s '
             'vocabulary, i.e. a failing input): (1) caller-owned results - a foreign test is added to every suite the first '
             'filter_by_ids call created (objects not present in the tree before), then an identical fresh tree is filtered again '
-            'and must give the same shape; (2) route independence - --list and --load-list are repeated with the suite reaching '
+            'and must give the same shape; the suite sorted_tests returns is handed to filter_by_ids (modelled: clause sort-then-filter) and every suite in it '
+            'must take another test (addTest); (2) route independence - --list and --load-list are repeated with the suite reaching '
             'TestProgram unwrapped through a module load_tests hook (bare test cases and suites with their own filter_by_ids as '
             'root included; the id file also with blank lines, CRLF line ends and blanks around the ids) and must list / run the same ids (done whenever the root is such an object and for half of the other cases, for run time). '
             'non-trivial = at least 2 leaves and (a non-plain suite or a duplicate id or a nested suite); distinct = distinct '
             'input S-expression')
     assumptions = ['unittest.TestSuite iteration/_tests semantics and unittest.TestProgram argument parsing are modelled, not verified',
                    'the custom suites\' sort_tests / filter_by_ids are the documented idioms implemented in harness/props/c19.py',
+                   'reading (audit/C19 V2): a custom suite is placed by the first test it yields BEFORE its own sort_tests runs; sorted_tests is not '
+                   'idempotent on trees where such a suite was out of order',
+                   'outside the stated domain (audit/C19 borderline list): TestSuite subclasses overriding __iter__ or keeping _tests in a tuple or having '
+                   'an id() method; ids with the unittest.loader.ModuleImportFailure prefix (dropped by --list), with surrounding white space or '
+                   'newlines (stripped / split by --load-list), an id list file starting with a BOM, non-ASCII ids on an ASCII stdout; loader.errors '
+                   'left over from an earlier TestProgram in the same process; suites that have already been run',
                    'object identity / aliasing is not part of the model (trees are values): that filter_by_ids hands out fresh suites and '
                    'that TestProgram uses the filtered suite however the suite was loaded are checked on the real objects only '
                    '(independence checks above) and, for the source text, by the translator tie C19_src_*',
@@ -76,7 +97,7 @@ class C19(Prop):
     def classes(self):
         if self.K is None:
             self.K = _classes()
-            self.NAME = {v: k for k, v in self.K.items()}
+            self.NAME = {v: ('csort' if k == 'fixture' else k) for k, v in self.K.items()}
             from testtools import PlaceHolder
             log = self.LOG
 
@@ -127,9 +148,16 @@ class C19(Prop):
             if self.shape(filter_by_ids(self.build(tree), idset)) != fshape:
                 return ['raised', 'filter-result-depends-on-earlier-calls']
             try:
-                srt = some(self.shape(sorted_tests(self.build(tree))))
+                sorted_suite = sorted_tests(self.build(tree))
+                srt = some(self.shape(sorted_suite))
             except ValueError:
                 srt = None
+            # what sorted_tests returns is handed to filter_by_ids (testtools.run discover --load-list composes them like that) ...
+            sortfilt = None
+            if srt is not None:
+                sortfilt = some(self.nums(iterate_tests(filter_by_ids(sorted_tests(self.build(tree)), idset))))
+                # ... and is a suite like any other: every suite in it takes another test
+                walk(sorted_suite, lambda x: x.addTest(foreign) if isinstance(x, unittest.TestSuite) else None)
             # testtools.run --list / --load-list, in process
             root = self.build(tree if tree[0] != 'case' else ['plain', tree])
             mod = types.ModuleType('verif_c19_mod')
@@ -168,7 +196,7 @@ class C19(Prop):
                     return ['raised', 'list-depends-on-how-the-suite-reaches-TestProgram']
                 if flag == '--load-list' and sorted(int(x[1:]) for x in self.LOG) != sorted(loaded):
                     return ['raised', 'load-list-depends-on-how-the-suite-reaches-TestProgram']
-            return [it, fshape, fit, srt, listed, loaded]
+            return [it, fshape, fit, srt, listed, loaded, sortfilt]
         except Exception as e:
             return ['raised', type(e).__name__]
 
@@ -195,7 +223,7 @@ class C19(Prop):
     def gen_tree(self, rng, depth, ids):
         if depth == 0 or rng.random() < 0.35:
             return ['case', ids()]
-        k = rng.choice(['plain', 'plain', 'custom', 'csort', 'cfilter'])
+        k = rng.choice(['plain', 'plain', 'custom', 'csort', 'cfilter', 'fixture'])
         return [k] + [self.gen_tree(rng, depth - 1, ids) for _ in range(rng.choice([0, 1, 2, 2, 3, 4]))]
 
     def gen(self, rng, tier):
@@ -210,7 +238,7 @@ class C19(Prop):
             ids = lambda: rng.randrange(pool)
         tree = self.gen_tree(rng, rng.choice([0, 1, 2, 2, 3, 3, 4, 4]), ids)
         if tree[0] == 'case' and rng.random() < 0.9:
-            tree = [rng.choice(['plain', 'plain', 'custom', 'csort', 'cfilter']), tree] + [self.gen_tree(rng, rng.randint(0, 3), ids) for _ in range(rng.randint(0, 3))]
+            tree = [rng.choice(['plain', 'plain', 'custom', 'csort', 'cfilter', 'fixture']), tree] + [self.gen_tree(rng, rng.randint(0, 3), ids) for _ in range(rng.randint(0, 3))]
         leaves = self.leaves(tree)
         universe = sorted(set(leaves)) + [100, 101]
         sel = [x for x in universe if rng.random() < rng.choice([0.0, 0.3, 0.5, 0.9, 1.0])]
@@ -251,21 +279,25 @@ class C19(Prop):
                 for pat in pats[: (1 if nl == 0 or n == 5 else 3)]:      # (5 nodes: one id pattern, two id subsets - run time)
                     tree = self.assign(sh, iter(pat))
                     sels = ([], sorted(set(pat)), [x for x in sorted(set(pat)) if x % 2 == 0], pat[:1] + [100])
-                    for sel in (sels[2:] if n == 5 else sels):
-                        yield [tree, sel]
+                    for j, sel in enumerate(sels[2:] if n == 5 else sels):
+                        # every second case realises the sort_tests suites by the real FixtureSuite instead of the harness's own class
+                        yield [self.as_fixture(tree) if j % 2 else tree, sel]
+
+    def as_fixture(self, t):
+        return t if t[0] == 'case' else [('fixture' if t[0] == 'csort' else t[0])] + [self.as_fixture(c) for c in t[1:]]
 
     def nontrivial(self, inp, trace):
         tree = inp[0]
         ls = self.leaves(tree)
         s = str(tree)
-        return len(ls) >= 2 and (len(set(ls)) != len(ls) or 'custom' in s or 'csort' in s or 'cfilter' in s or s.count('plain') > 1)
+        return len(ls) >= 2 and (len(set(ls)) != len(ls) or 'custom' in s or 'csort' in s or 'cfilter' in s or 'fixture' in s or s.count('plain') > 1)
 
     def features(self, inp, trace):
         tree, ids = inp
         ls = self.leaves(tree)
         f = ['leaves=%s' % (len(ls) if len(ls) < 6 else '6+'), 'dup' if len(set(ls)) != len(ls) else 'unique',
              'ids=' + ('none' if not ids else 'all' if set(ls) <= set(ids) else 'some')]
-        for k in KINDS:
+        for k in KINDS + ['fixture']:
             if ("'%s'" % k) in str(tree):
                 f.append('kind:' + k)
         if trace and trace[0] == 'raised':
